@@ -1,11 +1,455 @@
 //go:build verif
 
+// C18 part S: the same monitors applied to the backend-boundary history produced by concurrent clients
+// of the real resource SERVICE (agent/grpc-external/services/resource: Write / Delete / Read), where
+// UIDs are assigned by the server. The service's storage backend (a real inmem.Backend) is wrapped
+// by a recorder that sees every Backend call the service makes; watchers watch the backend directly.
 package c18
 
 import (
+	"context"
+	"fmt"
+	"runtime"
+	"sync"
 	"testing"
+	"time"
 
+	"github.com/hashicorp/go-hclog"
+	"google.golang.org/grpc/codes"
+	"google.golang.org/grpc/status"
+	"google.golang.org/protobuf/proto"
+
+	"github.com/hashicorp/consul/acl"
+	"github.com/hashicorp/consul/acl/resolver"
+	svc "github.com/hashicorp/consul/agent/grpc-external/services/resource"
+	"github.com/hashicorp/consul/internal/resource"
+	"github.com/hashicorp/consul/internal/resource/demo"
+	"github.com/hashicorp/consul/internal/storage"
+	"github.com/hashicorp/consul/internal/storage/inmem"
+	"github.com/hashicorp/consul/proto-public/pbresource"
 	"github.com/hashicorp/consul/zzverif/core"
 )
 
-func runServicePart(t *testing.T, run *core.Run, rng *core.Rand) {}
+var svcUniverse = &universe{typ: demo.TypeV2Album, tens: [2][2]string{{"default", "default"}, {"zz-unused", "zz-unused"}}}
+
+type zvACL struct{}
+
+func (zvACL) ResolveTokenAndDefaultMeta(string, *acl.EnterpriseMeta, *acl.AuthorizerContext) (resolver.Result, error) {
+	return resolver.Result{Authorizer: acl.ManageAll()}, nil
+}
+
+type zvTenancy struct{}
+
+func (zvTenancy) PartitionExists(string) (bool, error)                    { return true, nil }
+func (zvTenancy) IsPartitionMarkedForDeletion(string) (bool, error)       { return false, nil }
+func (zvTenancy) NamespaceExists(string, string) (bool, error)            { return true, nil }
+func (zvTenancy) IsNamespaceMarkedForDeletion(string, string) (bool, error) { return false, nil }
+
+// ---------------- recording backend ----------------
+
+type svcKey struct{}
+
+type recBackend struct {
+	inner storage.Backend
+	h     *hist
+	mu    sync.Mutex
+	recs  []opRec
+}
+
+func (b *recBackend) resIndex(id *pbresource.ID) int {
+	if id == nil || id.Type == nil || id.Tenancy == nil || !proto.Equal(id.Type, b.h.U.typ) {
+		return -1
+	}
+	for r := 0; r < b.h.P.Active; r++ {
+		if b.h.U.tens[resTen(r)][0] == id.Tenancy.Partition && b.h.U.tens[resTen(r)][1] == id.Tenancy.Namespace && resName(r) == id.Name {
+			return r
+		}
+	}
+	return -1
+}
+
+func svcCall(ctx context.Context) int {
+	if v, ok := ctx.Value(svcKey{}).(int); ok {
+		return v
+	}
+	return 0
+}
+
+func (b *recBackend) add(op opRec) {
+	b.mu.Lock()
+	b.recs = append(b.recs, op)
+	b.mu.Unlock()
+}
+
+func (b *recBackend) Read(ctx context.Context, c storage.ReadConsistency, id *pbresource.ID) (*pbresource.Resource, error) {
+	r := b.resIndex(id)
+	if r < 0 {
+		return b.inner.Read(ctx, c, id)
+	}
+	op := opRec{Kind: "read", Res: r, Uid: id.Uid, Mode: "svc-backend-read", Svc: svcCall(ctx)}
+	op.Call = b.h.now()
+	out, err := b.inner.Read(ctx, c, id)
+	op.Ret = b.h.now()
+	op.Err = errClass(err)
+	if err == nil {
+		it := b.h.U.parseItem(out)
+		op.Out = &it
+	}
+	b.add(op)
+	return out, err
+}
+
+func (b *recBackend) WriteCAS(ctx context.Context, res *pbresource.Resource) (*pbresource.Resource, error) {
+	r := b.resIndex(res.GetId())
+	if r < 0 {
+		return b.inner.WriteCAS(ctx, res)
+	}
+	op := opRec{Kind: "write", Res: r, Uid: res.Id.Uid, Ver: res.Version, Pid: res.Metadata["pid"], Mode: "svc-backend-write", Svc: svcCall(ctx)}
+	op.Call = b.h.now()
+	out, err := b.inner.WriteCAS(ctx, res)
+	op.Ret = b.h.now()
+	op.Err = errClass(err)
+	if err == nil {
+		it := b.h.U.parseItem(out)
+		op.Out = &it
+	}
+	b.add(op)
+	return out, err
+}
+
+func (b *recBackend) DeleteCAS(ctx context.Context, id *pbresource.ID, version string) error {
+	r := b.resIndex(id)
+	if r < 0 {
+		return b.inner.DeleteCAS(ctx, id, version)
+	}
+	op := opRec{Kind: "delete", Res: r, Uid: id.Uid, Ver: version, Mode: "svc-backend-delete", Svc: svcCall(ctx)}
+	op.Call = b.h.now()
+	err := b.inner.DeleteCAS(ctx, id, version)
+	op.Ret = b.h.now()
+	op.Err = errClass(err)
+	b.add(op)
+	return err
+}
+
+func (b *recBackend) List(ctx context.Context, c storage.ReadConsistency, t storage.UnversionedType, ten *pbresource.Tenancy, prefix string) ([]*pbresource.Resource, error) {
+	return b.inner.List(ctx, c, t, ten, prefix)
+}
+func (b *recBackend) WatchList(ctx context.Context, t storage.UnversionedType, ten *pbresource.Tenancy, prefix string) (storage.Watch, error) {
+	return b.inner.WatchList(ctx, t, ten, prefix)
+}
+func (b *recBackend) ListByOwner(ctx context.Context, id *pbresource.ID) ([]*pbresource.Resource, error) {
+	return b.inner.ListByOwner(ctx, id)
+}
+
+// ---------------- service clients ----------------
+
+type svcRec struct {
+	ID     int    `json:"id"`
+	Client int    `json:"c"`
+	Kind   string `json:"k"`
+	Res    int    `json:"r"`
+	Uid    string `json:"uid,omitempty"`
+	Ver    string `json:"ver,omitempty"`
+	Pid    string `json:"pid,omitempty"`
+	Mode   string `json:"mode,omitempty"`
+	Call   int64  `json:"call"`
+	Ret    int64  `json:"ret"`
+	Code   string `json:"code"`
+	Msg    string `json:"msg,omitempty"`
+	OutUid string `json:"outuid,omitempty"`
+	OutVer string `json:"outver,omitempty"`
+}
+
+type svcClient struct {
+	id   int
+	h    *hist
+	srv  *svc.Server
+	rng  *core.Rand
+	know [nRes]knowledge
+	recs []svcRec
+	n    int
+}
+
+func (c *svcClient) callID() int { c.n++; return (c.id+1)*10000 + c.n }
+
+func (c *svcClient) id4(r int, uid string) *pbresource.ID { return c.h.U.resID(r, uid) }
+
+func codeOf(err error) (string, string) {
+	if err == nil {
+		return "OK", ""
+	}
+	st, _ := status.FromError(err)
+	if st == nil {
+		return "non-status", err.Error()
+	}
+	return st.Code().String(), st.Message()
+}
+
+func (c *svcClient) write(r int, uid, ver, mode string) {
+	id := c.callID()
+	rec := svcRec{ID: id, Client: c.id, Kind: "write", Res: r, Uid: uid, Ver: ver, Pid: fmt.Sprintf("s%d", id), Mode: mode}
+	ctx := context.WithValue(bg, svcKey{}, id)
+	req := &pbresource.WriteRequest{Resource: &pbresource.Resource{Id: c.id4(r, uid), Version: ver, Metadata: map[string]string{"pid": rec.Pid}}}
+	rec.Call = c.h.now()
+	rsp, err := c.srv.Write(ctx, req)
+	rec.Ret = c.h.now()
+	rec.Code, rec.Msg = codeOf(err)
+	if err == nil {
+		rec.OutUid, rec.OutVer = rsp.Resource.Id.Uid, rsp.Resource.Version
+		c.know[r].learn(pair{rec.OutUid, rec.OutVer})
+	}
+	c.recs = append(c.recs, rec)
+}
+
+func (c *svcClient) del(r int, uid, ver, mode string) {
+	id := c.callID()
+	rec := svcRec{ID: id, Client: c.id, Kind: "delete", Res: r, Uid: uid, Ver: ver, Mode: mode}
+	ctx := context.WithValue(bg, svcKey{}, id)
+	rec.Call = c.h.now()
+	_, err := c.srv.Delete(ctx, &pbresource.DeleteRequest{Id: c.id4(r, uid), Version: ver})
+	rec.Ret = c.h.now()
+	rec.Code, rec.Msg = codeOf(err)
+	if err == nil && (uid == "" || uid == c.know[r].cur.uid) {
+		c.know[r].learn(pair{})
+	}
+	c.recs = append(c.recs, rec)
+}
+
+func (c *svcClient) read(r int, uid, mode string) {
+	id := c.callID()
+	rec := svcRec{ID: id, Client: c.id, Kind: "read", Res: r, Uid: uid, Mode: mode}
+	ctx := context.WithValue(bg, svcKey{}, id)
+	rec.Call = c.h.now()
+	rsp, err := c.srv.Read(ctx, &pbresource.ReadRequest{Id: c.id4(r, uid)})
+	rec.Ret = c.h.now()
+	rec.Code, rec.Msg = codeOf(err)
+	if err == nil {
+		rec.OutUid, rec.OutVer = rsp.Resource.Id.Uid, rsp.Resource.Version
+		c.know[r].learn(pair{rec.OutUid, rec.OutVer})
+	} else if rec.Code == "NotFound" && uid == "" {
+		c.know[r].learn(pair{})
+	}
+	c.recs = append(c.recs, rec)
+}
+
+func (c *svcClient) run() {
+	rng := c.rng
+	for i := 0; i < c.h.P.Ops; i++ {
+		r := rng.Intn(c.h.P.Active)
+		k := &c.know[r]
+		old := pair{}
+		if len(k.old) > 0 {
+			old = k.old[rng.Intn(len(k.old))]
+		}
+		switch x := rng.Intn(100); {
+		case x < 45: // write
+			switch y := rng.Intn(100); {
+			case y < 30:
+				c.write(r, k.cur.uid, k.cur.ver, "cas-current") // with uid+version (a controller); create if nothing known
+			case y < 45:
+				c.write(r, "", k.cur.ver, "cas-by-name")
+			case y < 55:
+				c.write(r, "", "", "non-cas-by-name") // a user write: retried by the service on CAS failure
+			case y < 70 && old.uid != "":
+				c.write(r, old.uid, old.ver, "stale-uid-and-version")
+			case y < 80 && old.uid != "":
+				c.write(r, old.uid, "", "stale-uid-non-cas")
+			case y < 90 && old.uid != "" && k.cur.uid != "":
+				c.write(r, old.uid, k.cur.ver, "stale-uid-current-version")
+			default:
+				c.write(r, k.cur.uid, bogusVersion, "bogus-version")
+			}
+		case x < 70: // delete
+			switch y := rng.Intn(100); {
+			case y < 35:
+				c.del(r, k.cur.uid, k.cur.ver, "delete-cas-current")
+			case y < 50:
+				c.del(r, "", "", "delete-by-name")
+			case y < 60:
+				c.del(r, k.cur.uid, "", "delete-by-uid-any-version")
+			case y < 75 && old.uid != "":
+				c.del(r, old.uid, old.ver, "delete-stale-uid-and-version")
+			case y < 85 && old.uid != "":
+				c.del(r, old.uid, "", "delete-stale-uid-any-version")
+			case y < 93 && old.uid != "" && k.cur.uid != "":
+				c.del(r, old.uid, k.cur.ver, "delete-stale-uid-current-version")
+			default:
+				c.del(r, k.cur.uid, bogusVersion, "delete-bogus-version")
+			}
+		default:
+			switch y := rng.Intn(100); {
+			case y < 70:
+				c.read(r, "", "read-by-name")
+			case y < 85 && old.uid != "":
+				c.read(r, old.uid, "read-stale-uid")
+			default:
+				c.read(r, k.cur.uid, "read-by-uid")
+			}
+		}
+		if rng.Chance(c.h.P.Yield) {
+			runtime.Gosched()
+		}
+	}
+}
+
+// ---------------- one service history ----------------
+
+type svcHist struct {
+	h    *hist
+	svc  []svcRec
+	stop func()
+}
+
+func runServiceHistory(p hparams, rng *core.Rand) *svcHist {
+	h := &hist{P: p, U: svcUniverse, start: time.Now(), flushed: make(chan struct{}), mainClient: p.Clients}
+	inner, err := inmem.NewBackend()
+	if err != nil {
+		panic(err)
+	}
+	ctx, cancel := context.WithCancel(context.Background())
+	defer cancel()
+	go inner.Run(ctx)
+	rec := &recBackend{inner: inner, h: h}
+	reg := resource.NewRegistry()
+	demo.RegisterTypes(reg)
+	srv := svc.NewServer(svc.Config{Logger: hclog.NewNullLogger(), Registry: reg, Backend: rec, ACLResolver: zvACL{}, TenancyBridge: zvTenancy{}})
+
+	clients := make([]*svcClient, p.Clients)
+	var workers []func()
+	for i := range clients {
+		c := &svcClient{id: i, h: h, srv: srv, rng: rng.Fork(uint64(500 + i))}
+		clients[i] = c
+		workers = append(workers, c.run)
+	}
+	driveHistory(h, &sut{be: inner, cancel: func() {}}, rng, workers)
+	sh := &svcHist{h: h}
+	// the service's backend calls join the history (they ARE the client boundary of the backend here)
+	h.Ops = append(h.Ops, rec.recs...)
+	for _, c := range clients {
+		sh.svc = append(sh.svc, c.recs...)
+	}
+	return sh
+}
+
+func checkServiceHistory(run *core.Run, sh *svcHist) {
+	h := sh.h
+	a := &analysis{h: h, run: run}
+	run.Eval()
+	if h.Incomplete != "" {
+		run.Inconclusive(fmt.Sprintf("service history %d: %s", h.P.Idx, h.Incomplete))
+	}
+	a.index()
+	a.direct()
+	a.watches()
+	a.linearizability()
+
+	bySvc := map[int][]*opRec{}
+	for i := range h.Ops {
+		if op := &h.Ops[i]; op.Svc != 0 {
+			bySvc[op.Svc] = append(bySvc[op.Svc], op)
+		}
+	}
+	ex := func(s *svcRec) map[string]any {
+		return map[string]any{"service_call": s, "backend_calls_of_it": bySvc[s.ID], "service_calls": sh.svc}
+	}
+	for i := range sh.svc {
+		s := &sh.svc[i]
+		run.Count("svc_calls")
+		run.Distinct("svc-class", s.Kind+":"+s.Mode+":"+s.Code)
+		if s.Code == "Internal" || s.Code == "Unknown" || s.Code == "non-status" {
+			a.viol("svc:internal-error:"+s.Kind, fmt.Sprintf("service %s(%d uid=%q ver=%q) failed with %s: %s", s.Kind, s.Res, s.Uid, s.Ver, s.Code, s.Msg), ex(s))
+			continue
+		}
+		switch {
+		case s.Kind == "write" && s.Code == "OK":
+			run.Count("svc_writes_ok")
+			w := a.wr[s.Res][s.OutVer]
+			if w == nil || w.Out.Uid != s.OutUid || w.Svc != s.ID {
+				a.viol("svc:write-response-not-backed-by-a-backend-write", fmt.Sprintf("service Write(%d) answered uid=%s version=%s but no successful WriteCAS of that call produced it", s.Res, s.OutUid, s.OutVer), ex(s))
+				continue
+			}
+			if s.Ver != "" && w.Ver != s.Ver {
+				a.viol("svc:cas-write-applied-on-other-version", fmt.Sprintf("service Write(%d) with version %s succeeded by a WriteCAS presenting version %q", s.Res, s.Ver, w.Ver), ex(s))
+			}
+			if s.Uid != "" && s.Ver != "" && s.OutUid != s.Uid {
+				a.viol("svc:uid-qualified-write-landed-on-other-lifetime", fmt.Sprintf("service Write(%d uid=%s ver=%s) succeeded on uid %s", s.Res, s.Uid, s.Ver, s.OutUid), ex(s))
+			}
+			if w.Ver == "" {
+				run.Count("svc_creates_with_server_assigned_uid")
+			}
+		case s.Kind == "write" && s.Code == codes.FailedPrecondition.String():
+			run.Count("svc_writes_wrong_uid")
+		case s.Kind == "write" && s.Code == codes.Aborted.String():
+			run.Count("svc_writes_cas_failure")
+		case s.Kind == "delete":
+			for _, b := range bySvc[s.ID] {
+				if b.Kind == "delete" && s.Uid != "" && b.Uid != s.Uid {
+					a.viol("svc:uid-qualified-delete-aimed-at-other-lifetime", fmt.Sprintf("service Delete(%d uid=%s ver=%q) issued DeleteCAS for uid %s", s.Res, s.Uid, s.Ver, b.Uid), ex(s))
+				}
+				if b.Kind == "delete" && s.Ver != "" && s.Uid != "" && b.Ver != s.Ver {
+					a.viol("svc:cas-delete-applied-on-other-version", fmt.Sprintf("service Delete(%d uid=%s ver=%s) issued DeleteCAS for version %s", s.Res, s.Uid, s.Ver, b.Ver), ex(s))
+				}
+			}
+		}
+	}
+	nt, fp := a.coverage()
+	if nt {
+		run.NonTrivial("svc:" + fp)
+	}
+}
+
+func runServicePart(t *testing.T, run *core.Run, rng *core.Rand) {
+	n := core.N(60, 1200)
+	if zvRace {
+		n = core.N(12, 120)
+	}
+	ncpu := runtime.NumCPU()
+	scopes := []scope{{0, ""}, {0, "a"}, {-1, ""}, {-3, ""}, {-2, "ab"}, {-1, "b"}}
+	params := make([]hparams, n)
+	rngs := make([]*core.Rand, n)
+	for i := 0; i < n; i++ {
+		hr := rng.Fork(uint64(i))
+		p := hparams{Idx: 1_000_000 + i, Backend: "inmem-under-service", Clients: 4 + hr.Intn(3), Ops: 16, Yield: core.Pick(hr, []int{0, 20, 50}), Procs: []int{2, 4, ncpu}[i%3], Active: 3}
+		for k := 0; k < 2; k++ {
+			wp := wparams{Scope: core.Pick(hr, scopes)}
+			if hr.Chance(50) {
+				wp.Warmup = hr.Intn(40)
+			}
+			p.Watchers = append(p.Watchers, wp)
+		}
+		params[i], rngs[i] = p, hr
+	}
+	for _, procs := range []int{2, 4, ncpu} {
+		var idx []int
+		for i := range params {
+			if params[i].Procs == procs {
+				idx = append(idx, i)
+			}
+		}
+		if run.Violations() >= 30 {
+			break
+		}
+		hs := make([]*svcHist, len(idx))
+		runtime.GOMAXPROCS(procs)
+		parallel(6, len(idx), func(k int) {
+			ch := make(chan *svcHist, 1)
+			go func() { ch <- runServiceHistory(params[idx[k]], rngs[idx[k]]) }()
+			select {
+			case hs[k] = <-ch:
+			case <-time.After(60 * time.Second):
+				run.Eval()
+				run.Inconclusive(fmt.Sprintf("service history %d: watchdog fired", params[idx[k]].Idx))
+			}
+		})
+		runtime.GOMAXPROCS(ncpu)
+		parallel(ncpu, len(idx), func(k int) {
+			if hs[k] != nil {
+				checkServiceHistory(run, hs[k])
+			}
+		})
+	}
+	run.CountN("service_histories", n)
+	run.Floor("svc_creates_with_server_assigned_uid", n/2)
+	run.Floor("svc_writes_wrong_uid", n/4)
+	run.FloorDistinct("svc-class", 20)
+}
